@@ -718,6 +718,21 @@ def _type_from_value(
         return AnyValue(AnySource.error)
 
 
+def _flatten_literal_members(members: Sequence[Value]) -> Sequence[Value]:
+    """Literal[Literal[1, 2], 3] is equivalent to Literal[1, 2, 3] (PEP 586)."""
+    flat = []
+    for elt in members:
+        if (
+            isinstance(elt, _SubscriptedValue)
+            and isinstance(elt.root, KnownValue)
+            and is_typing_name(elt.root.val, "Literal")
+        ):
+            flat += _flatten_literal_members(elt.members)
+        else:
+            flat.append(elt)
+    return flat
+
+
 def _type_from_subscripted_value(
     root: Optional[Value],
     members: Sequence[Value],
@@ -767,6 +782,7 @@ def _type_from_subscripted_value(
     if root is typing.Union:
         return unite_values(*[_type_from_value(elt, ctx) for elt in members])
     elif is_typing_name(root, "Literal"):
+        members = _flatten_literal_members(members)
         if all(isinstance(elt, KnownValue) for elt in members):
             return unite_values(*members)
         else:
